@@ -199,7 +199,7 @@ def implHeaders (m : Json) : List (String × String × String) :=
   | .error _ => []
 
 /-- does the decoded route (implementation summary) preserve the meaning of the route the control plane sent? -/
-def specRoute (O : Oracles) (r : PRoute) (d : Json) (where_ : String) : Option String :=
+def specRoute (O : Oracles) (floats : String → String) (r : PRoute) (d : Json) (where_ : String) : Option String :=
   match r.mtch, r.action with
   | some m, .route a =>
     let dm := (d.getObjVal? "match").toOption.getD Json.null
@@ -236,7 +236,21 @@ def specRoute (O : Oracles) (r : PRoute) (d : Json) (where_ : String) : Option S
               | .ok (.arr x) => (match (x[0]!).getInt?, (x[1]!).getInt? with | .ok b, .ok m => some (b, m) | _, _ => none)
               | _ => none
             if wantBo ≠ gotBo then some s!"C11.retry_preserves: {where_}: back-off sent (base,max)={wantBo}, decoded {gotBo}"
-            else none
+            else
+              -- the retriable-header extensions of THIS route: the last retriable header of each extension name that carries
+              -- a non-empty exact value (an error rate only when it reads as a number); none sent = none decoded
+              let exact (h : PHeader) : String := match h.spec with | .stringMatch (.exact v) => v | _ => ""
+              let lastOf (nm : String) (ok : String → Bool) : Option String :=
+                ((p.retriable.filter (fun h => h.name = nm && exact h ≠ "" && ok (exact h))).getLast?).map exact
+              let wantMethods : List String := match lastOf "kitexRetryMethods" (fun _ => true) with | some v => v.splitOn "," | none => []
+              let gotMethods : List String := match jArr dr "methods" with
+                | .ok arr => arr.toList.filterMap (fun e => match e with | .str x => some x | _ => none)
+                | .error _ => []
+              let wantRate : String := match lastOf "kitexRetryErrorRate" O.parsesFloat with | some v => floats v | none => "0"
+              let gotRate : String := jStrD dr "errRate" "?"
+              if wantMethods ≠ gotMethods then some s!"C11.retry_preserves: {where_}: retriable-header extension kitexRetryMethods: sent {wantMethods}, decoded {gotMethods}"
+              else if wantRate ≠ gotRate then some s!"C11.retry_preserves: {where_}: retriable-header extension kitexRetryErrorRate: sent {wantRate}, decoded {gotRate}"
+              else none
   | _, _ => none
 
 /-- the bucket the control plane configured for an HTTP connection manager: the first local-rate-limit filter
@@ -247,7 +261,7 @@ def specBucket (fs : List PHttpFilter) : Option (Nat × Nat) :=
     | .typed (some (.typedStruct (.ok (some (some mt, some tpf))))) => some (mt, tpf)
     | _ => none)).head?
 
-def specRC (O : Oracles) (c : PRouteConfiguration) (d : Json) (where_ : String) : Option String :=
+def specRC (O : Oracles) (floats : String → String) (c : PRouteConfiguration) (d : Json) (where_ : String) : Option String :=
   match d.getObjVal? "http" with
   | .ok (.arr vhs) =>
     if vhs.size ≠ c.vhosts.length then some s!"C11.vhosts_in_order: {where_}: virtual host count" else
@@ -256,7 +270,7 @@ def specRC (O : Oracles) (c : PRouteConfiguration) (d : Json) (where_ : String) 
       match jArr dv "routes" with
       | .ok rs =>
         if rs.size ≠ v.routes.length then some s!"C11.routes_in_order: {where_}: route count in {v.name}" else
-        ((v.routes.zip rs.toList).zipIdx.filterMap (fun ((r, dr), k) => specRoute O r dr s!"{where_}/{v.name}/route {k}")).head?
+        ((v.routes.zip rs.toList).zipIdx.filterMap (fun ((r, dr), k) => specRoute O floats r dr s!"{where_}/{v.name}/route {k}")).head?
       | .error _ => some "routes missing")).head?
   | _ => some s!"C11: {where_}: no HTTP route config decoded"
 
@@ -354,7 +368,7 @@ def checkLdsRds (pid : String) (j : Json) (rt : String) : Except String Verdict 
       let named := lastByName (slots.filterMap (fun s => match s with | .ok rc => some (rc.name, rc) | _ => none))
       for (n, rc) in named do
         match entries.getObjVal? n with
-        | .ok iv => c := c.sf (specRC O rc iv s!"table {n}")
+        | .ok iv => c := c.sf (specRC O floats rc iv s!"table {n}")
         | .error _ => c := c.sf (some s!"C11: route table {n} lost")
       if (jKVs entries).length ≠ named.length then c := c.sf (some "C11: decoded tables not keyed one-to-one by their names")
     return { nontrivial := slots.any (fun s => match s with | .ok rc => rc.vhosts.any (fun v => !v.routes.isEmpty) | _ => true)
@@ -410,7 +424,7 @@ def checkLdsRds (pid : String) (j : Json) (rt : String) : Except String Verdict 
                     c := c.sf (some s!"C11.rate_limit_any_position: listener {n}: bucket sent (max {wmt}, per fill {wtpf}), decoded (max {jNatD inl "maxTokens" 0}, per fill {jNatD inl "tokensPerFill" 0})")
                 | .routeConfig (some rc) =>
                   if jStrD g "rcName" "?" ≠ rc.name then c := c.sf (some s!"C11.lds_preserves: listener {n}: inline table name")
-                  c := c.sf (specRC O rc inl s!"listener {n} inline table")
+                  c := c.sf (specRC O floats rc inl s!"listener {n} inline table")
                   if jNatD inl "tokensPerFill" 0 ≠ wtpf || jNatD inl "maxTokens" 0 ≠ wmt then
                     c := c.sf (some s!"C11.rate_limit_any_position: listener {n}: bucket sent (max {wmt}, per fill {wtpf}), decoded (max {jNatD inl "maxTokens" 0}, per fill {jNatD inl "tokensPerFill" 0})")
                 | _ => pure ()
